@@ -5,6 +5,7 @@ import LexgenModel.Proofs.CheckerSound
 import LexgenModel.Proofs.CompileLang
 import LexgenModel.Proofs.EndToEnd
 import LexgenModel.Proofs.RefRefine
+import LexgenModel.Proofs.Capstone
 /-!
 # C01 — Longest match with first-rule priority, recovered by backtracking
 
@@ -206,5 +207,16 @@ theorem C01_refines_reference (items : LexerDef) (c : Compiled) (h : compileLexe
 theorem C01_selection_unique (rules : List CoreRule) (ctxAt : Nat → Regex) (iter : List Nat) (n a n' a' : Nat) (e e' : Bool)
     (h : Selects rules ctxAt iter n a e) (h' : Selects rules ctxAt iter n' a' e') : n = n' ∧ a = a' ∧ e = e' :=
   selects_unique rules ctxAt iter n a n' a' e e' h h'
+
+/-- **The model of the generated code computes the executable specification.** For every well-formed definition without empty classes or empty string
+literals that the model of `lexer()` compiles, every call of the model of the generated `next()` from a lexeme start returns exactly what the executable
+reference lexer returns — same item, same lexer state — where the reference lexer (`specNext`, Exec/SpecRun.lean) works on the definition itself: Brzozowski
+derivatives, maximal munch with first-rule priority, the semantic-action protocol, and after a failure "skip the longest viable prefix plus the offending
+character". `specNext` is sound w.r.t. the relational specification `RefNext` and is also RUN against the real generated lexers on every check. -/
+theorem C01_model_is_specification (items : LexerDef) (c : Compiled) (h : compileLexer items = .ok c) (hok : DefOK items) (hne : DefNE items)
+    (actions : Nat → Action σ τ ε) (width : Nat → Nat) (input : Option (List Nat))
+    (st : LState σ) (hr : Ready (c.config actions width input) st) :
+    next (c.config actions width input) st = specNextFull items (c.config actions width input) st :=
+  next_eq_specNext items c h hok hne actions width input st hr
 
 end Lexgen
